@@ -28,6 +28,77 @@ import (
 	"verifharness/internal/fix"
 )
 
+// Names of the PRIVATE claims of the two token kinds.  No property talks about
+// them, so they are not assumed: discoverLayout learns them from probe tokens
+// minted by the real codecs (the registered claims aud/exp/iat/iss/nbf/sub/jti
+// are fixed by RFC 7519).
+var (
+	claimID   = "id"
+	claimURI  = "uri"
+	claimAttr = "attr"
+	claimSM   = "saml-session"
+	claimRM   = "saml-authn-request"
+)
+
+func probeClaims(token string) map[string]any {
+	parts := strings.Split(token, ".")
+	if len(parts) != 3 {
+		return nil
+	}
+	b, err := base64.RawURLEncoding.DecodeString(parts[1])
+	if err != nil {
+		return nil
+	}
+	var m map[string]any
+	if json.Unmarshal(b, &m) != nil {
+		return nil
+	}
+	return m
+}
+
+// discoverLayout mints one session and one tracking token with recognisable
+// values and records which claim carries what.
+func discoverLayout(mintSession func(attrName, attrValue string) string, mintTracking func(id, uri string) string) {
+	registered := map[string]bool{"aud": true, "exp": true, "iat": true, "iss": true, "nbf": true, "sub": true, "jti": true}
+	const pid, puri, pan, pav = "probe-request-id-7f3a", "/probe/uri?7f3a", "probe-attribute-7f3a", "probe-value-7f3a"
+	if m := probeClaims(mintTracking(pid, puri)); m != nil {
+		for k, v := range m {
+			if registered[k] {
+				continue
+			}
+			switch x := v.(type) {
+			case string:
+				if x == pid {
+					claimID = k
+				} else if x == puri {
+					claimURI = k
+				}
+			case bool:
+				if x {
+					claimRM = k
+				}
+			}
+		}
+	}
+	if m := probeClaims(mintSession(pan, pav)); m != nil {
+		for k, v := range m {
+			if registered[k] {
+				continue
+			}
+			switch x := v.(type) {
+			case bool:
+				if x {
+					claimSM = k
+				}
+			case map[string]any:
+				if _, ok := x[pan]; ok {
+					claimAttr = k
+				}
+			}
+		}
+	}
+}
+
 type kv struct {
 	K string
 	V []string
@@ -50,10 +121,11 @@ type tok struct {
 	ID      string
 	URI     string
 	// serialization options without a counterpart in the model
-	smFalse bool // write "saml-session":false instead of omitting it
+	smFalse bool // write the session marker as false instead of omitting it
 	rmFalse bool
-	hasID   bool // write id/uri even when empty
-	hasAttr bool // write attr even when empty
+	hasID   bool                       // write id/uri even when empty
+	hasAttr bool                       // write attr even when empty
+	extra   map[string]json.RawMessage // claims the harness does not know, kept verbatim
 }
 
 func (t *tok) clone() *tok {
@@ -114,7 +186,7 @@ func (t *tok) summary() map[string]any {
 		return map[string]any{"garbage": true}
 	}
 	m := map[string]any{"alg": t.Alg, "signer": t.Key, "intact": t.Intact, "aud": t.Aud, "audkind": t.AudKind, "iss": t.Iss, "sub": t.Sub,
-		"saml-session": t.SM, "saml-authn-request": t.RM, "id": t.ID, "uri": t.URI}
+		"session_marker": t.SM, "request_marker": t.RM, "request_id": t.ID, "uri": t.URI}
 	if t.Iat != nil {
 		m["iat"] = *t.Iat
 	}
@@ -125,7 +197,7 @@ func (t *tok) summary() map[string]any {
 		m["exp"] = *t.Exp
 	}
 	if len(t.Attrs) > 0 {
-		m["attr"] = t.Attrs
+		m["attributes"] = t.Attrs
 	}
 	return m
 }
@@ -173,23 +245,31 @@ func (t *tok) claimsJSON() []byte {
 			}
 			ap = append(ap, jstr(e.K)+":"+string(b))
 		}
-		add("attr", "{"+strings.Join(ap, ",")+"}")
+		add(claimAttr, "{"+strings.Join(ap, ",")+"}")
 	}
 	if t.ID != "" || t.hasID {
-		add("id", jstr(t.ID))
+		add(claimID, jstr(t.ID))
 	}
 	if t.URI != "" || t.hasID {
-		add("uri", jstr(t.URI))
+		add(claimURI, jstr(t.URI))
 	}
 	if t.SM {
-		add("saml-session", "true")
+		add(claimSM, "true")
 	} else if t.smFalse {
-		add("saml-session", "false")
+		add(claimSM, "false")
 	}
 	if t.RM {
-		add("saml-authn-request", "true")
+		add(claimRM, "true")
 	} else if t.rmFalse {
-		add("saml-authn-request", "false")
+		add(claimRM, "false")
+	}
+	ek := make([]string, 0, len(t.extra))
+	for k := range t.extra {
+		ek = append(ek, k)
+	}
+	sort.Strings(ek)
+	for _, k := range ek {
+		add(k, string(t.extra[k]))
 	}
 	return []byte("{" + strings.Join(parts, ",") + "}")
 }
@@ -431,15 +511,24 @@ func parseTok(s string, key string, intact bool) (*tok, bool) {
 		*explicit = !bv
 		return true
 	}
-	known := map[string]bool{"aud": true, "exp": true, "iat": true, "iss": true, "nbf": true, "sub": true, "attr": true, "id": true, "uri": true,
-		"saml-session": true, "saml-authn-request": true, "jti": true}
+	known := map[string]bool{"aud": true, "exp": true, "iat": true, "iss": true, "nbf": true, "sub": true, claimAttr: true, claimID: true, claimURI: true,
+		claimSM: true, claimRM: true, "jti": true}
+	knownFold := map[string]bool{}
+	for k := range known {
+		knownFold[strings.ToLower(k)] = true
+	}
 	lower := map[string]bool{}
-	for k := range raw {
+	for k, v := range raw {
 		if !known[k] {
-			if known[strings.ToLower(k)] {
+			if knownFold[strings.ToLower(k)] {
 				return nil, false // encoding/json matches field names case-insensitively: not mapped
 			}
-			continue // unknown claims are ignored by both structs
+			// unknown claims are ignored by both structs; they are carried along when the token is re-serialised
+			if t.extra == nil {
+				t.extra = map[string]json.RawMessage{}
+			}
+			t.extra[k] = v
+			continue
 		}
 		if lower[strings.ToLower(k)] {
 			return nil, false
@@ -467,7 +556,7 @@ func parseTok(s string, key string, intact bool) (*tok, bool) {
 			return nil, true
 		}
 	}
-	if !str("iss", &t.Iss) || !str("sub", &t.Sub) || !str("id", &t.ID) || !str("uri", &t.URI) {
+	if !str("iss", &t.Iss) || !str("sub", &t.Sub) || !str(claimID, &t.ID) || !str(claimURI, &t.URI) {
 		return nil, true
 	}
 	for _, f := range []struct {
@@ -482,11 +571,11 @@ func parseTok(s string, key string, intact bool) (*tok, bool) {
 			return nil, true
 		}
 	}
-	if !boolean("saml-session", &t.SM, &t.smFalse) || !boolean("saml-authn-request", &t.RM, &t.rmFalse) {
+	if !boolean(claimSM, &t.SM, &t.smFalse) || !boolean(claimRM, &t.RM, &t.rmFalse) {
 		return nil, true
 	}
-	_, t.hasID = raw["id"]
-	if r, ok := raw["attr"]; ok {
+	_, t.hasID = raw[claimID]
+	if r, ok := raw[claimAttr]; ok {
 		t.hasAttr = true
 		var m map[string][]string
 		if json.Unmarshal(r, &m) != nil || strings.TrimSpace(string(r)) == "null" {
